@@ -43,10 +43,18 @@ func skeletonGoal(sym string, k int) *G {
 		return gc("call", gc(",", m, ga("!")))
 	case "x": // an error
 		return gc("throw", ga("ball"))
-	case "k": // a catch/3 that exits (its goal is nondeterministic)
-		return gc("catch", gc("member", gv(k%2), two), ga("ball"), gc("=", gv(k%2), ga("caught")))
+	case "k": // a catch/3 that exits (its goal is nondeterministic); its recovery, if ever run, is visible in the outcome
+		rec := gc("=", gv(k%2), ga("caught"))
+		if k%2 == 1 {
+			rec = gc("throw", ga("intercepted"))
+		}
+		return gc("catch", gc("member", gv(k%2), two), ga("ball"), rec)
 	case "K": // nested catch/3 goals that both exit
-		return gc("catch", gc("catch", ga("true"), gv(-1), ga("true")), gv(-1), gc("=", gv(k%2), ga("outer")))
+		rec := gc("=", gv(k%2), ga("outer"))
+		if k%2 == 0 {
+			rec = ga("fail")
+		}
+		return gc("catch", gc("catch", ga("true"), gv(-1), ga("true")), gv(-1), rec)
 	case "e": // a catch/3 around an error
 		return gc("catch", gc("throw", ga("ball")), ga("ball"), gc("=", gv(k%2), ga("caught")))
 	}
